@@ -54,7 +54,9 @@ SKIP = catalog.VOLATILE | catalog.SPIES | {
 
 
 NON_NUMERIC = ['abc', '3 apples', 'room 12', '10 km', 'about 7', '12abc',
-               'x1', 'nan', 'inf', 'Infinity', '-inf', '1_000']
+               'x1', 'nan', 'inf', 'Infinity', '-inf', '1_000',
+               # str.isdigit() says yes, int() says no
+               '\u00b2', '5\u00b2', '10\u00b3', '\u2460', '\u2082', '+\u2462']
 
 
 def shards(tier):
